@@ -314,7 +314,7 @@ add(Contract(
         ("silent-pure", "implies(silent, ntokens(state) == old(ntokens(state)) and state.line == old(state.line))"),
         ("fail-pure", "implies(not result, ntokens(state) == old(ntokens(state)) and state.line == old(state.line))"),
         ("level", "state.level == old(state.level)"),
-        ("needs-html-option", "implies(result, state.md.options.html)"),
+        ("needs-html-option", "implies(result, state.md.options.html)", ["C04", "C10"]),
         ("start-nonempty", "implies(result, P0 < len(state.src) and state.src[P0] == '<')"),
         ("line", "implies(result and not silent, startLine < state.line and state.line <= endLine)"),
         ("one-token", "implies(result and not silent, len(T) == 1 and T[0].type == 'html_block' and T[0].nesting == 0 and T[0].block and T[0].level == old(state.level))"),
